@@ -185,6 +185,69 @@ pub fn run(params: &[i64], ops: &Rows, mon: &mut Mon) -> Rows {
     if dd != dobj { mon.fail(format!("payload destructors {:?} directly, {:?} through the object", dd, dobj)); }
     drop(d);
     let _ = take_drops();
+    if which == 0 { thunk_pass(&mine, mon); }
     for r in res_o { out.push(r); }
     out
+}
+
+/// C13 at the level a C caller sees: the vtable entry of an integer-result method is called DIRECTLY with a caller-owned slot.
+/// On success the code is 0 and the slot holds the payload; on failure the code is non-zero and the slot is exactly as the caller left it
+/// (a live value parked there is neither overwritten nor destroyed).
+fn thunk_pass(mine: &[&Vec<i64>], mon: &mut Mon) {
+    use cglue::trait_group::GetContainer;
+    use core::mem::MaybeUninit;
+    const SENT: u64 = 0xA5A5_5A5A_DEAD_BEEF;
+    let reference = Obj::new(1);
+    let obj = trait_obj!(Obj::new(1) as ShapesRef);
+    let _ = take_log(); let _ = take_drops();
+    for (k, op) in mine.iter().enumerate() {
+        let x = op.get(1).copied().unwrap_or(0) as i32;
+        match op[0] {
+            16 | 19 => {
+                let want: Option<u64> = if op[0] == 16 { reference.res(x).ok() } else { reference.res_io(x).ok() };
+                let mut slot = MaybeUninit::new(SENT);
+                let code = if op[0] == 16 { unsafe { (obj.get_vtbl().res())(obj.ccont_ref(), x, &mut slot) } } else { unsafe { (obj.get_vtbl().res_io())(obj.ccont_ref(), x, &mut slot) } };
+                let got = unsafe { slot.assume_init() };
+                match want {
+                    Some(w) => { if code != 0 || got != w { mon.fail(format!("call {}: vtable entry returned code {} and slot {:#x} for Ok({})", k, code, got, w)); } }
+                    None => { if code == 0 { mon.fail(format!("call {}: vtable entry returned the success code for an error", k)); }
+                              if got != SENT { mon.fail(format!("call {}: vtable entry modified the caller's ok_out slot on the error path (now {:#x})", k, got)); } }
+                }
+            }
+            20 => {
+                let want = reference.res_drop(x).ok().map(|d| d.val());
+                let _ = take_drops();
+                match want {
+                    Some(w) => {
+                        let mut slot = MaybeUninit::<Droppy>::uninit();
+                        let code = unsafe { (obj.get_vtbl().res_drop())(obj.ccont_ref(), x, &mut slot) };
+                        if code != 0 { mon.fail(format!("call {}: vtable entry returned code {} for Ok", k, code)); } else {
+                            let d = unsafe { slot.assume_init() };
+                            if d.val() != w { mon.fail(format!("call {}: slot holds {} for Ok({})", k, d.val(), w)); }
+                            if !take_drops().is_empty() { mon.fail(format!("call {}: the payload was destroyed before the caller received it", k)); }
+                            drop(d);
+                            if take_drops() != vec![w] { mon.fail(format!("call {}: payload destructor did not run exactly once", k)); }
+                        }
+                    }
+                    None => {
+                        let parked = Droppy::new(-4242);
+                        let addr = parked.0;
+                        let mut slot = MaybeUninit::new(parked);
+                        let code = unsafe { (obj.get_vtbl().res_drop())(obj.ccont_ref(), x, &mut slot) };
+                        if code == 0 { mon.fail(format!("call {}: vtable entry returned the success code for an error", k)); }
+                        let same = unsafe { (*slot.as_ptr()).0 == addr };
+                        if !same { mon.fail(format!("call {}: vtable entry modified the caller's ok_out slot on the error path (the value parked there is lost)", k)); std::mem::forget(slot); unsafe { drop(Box::from_raw(addr)); } }
+                        else {
+                            if !take_drops().is_empty() { mon.fail(format!("call {}: the value parked in the caller's slot was destroyed on the error path", k)); std::mem::forget(slot); }
+                            else { drop(unsafe { slot.assume_init() }); }
+                        }
+                        let _ = take_drops();
+                    }
+                }
+            }
+            _ => {}
+        }
+    }
+    drop(obj); drop(reference);
+    let _ = take_log(); let _ = take_drops();
 }
